@@ -58,7 +58,8 @@ TraceNext ==
         \/ ev.a = "set"   /\ DoSet(ev.r, ev.v, ev.e) /\ Judge(ev)
         \/ ev.a = "del"   /\ DoDel(ev.r) /\ Judge(ev)
         \/ ev.a = "hset"  /\ DoHSet(ev.r, ev.f, ev.v) /\ Judge(ev)
-        \/ ev.a = "hdel"  /\ DoHDel(ev.r, ev.f) /\ Judge(ev)
+        \/ ev.a = "hdel"  /\ (DoHDel(ev.r, ev.f) \/ DoHDelAbsent(ev.r, ev.f)) /\ Judge(ev)
+        \/ ev.a = "tick"  /\ Tick(ev.r) /\ Judge(ev)
         \/ ev.a = "gcinc" /\ DoGcInc(ev.r, ev.n) /\ Judge(ev)
         \/ ev.a = "pninc" /\ DoPnInc(ev.r, ev.n) /\ Judge(ev)
         \/ ev.a = "pndec" /\ DoPnDec(ev.r, ev.n) /\ Judge(ev)
